@@ -79,6 +79,7 @@ type caseT struct {
 	ErrPct   int     `json:"errPercent"`
 	Rules    []ruleT `json:"rules"`
 	Ops      []opT   `json:"ops"`
+	Reload   string  `json:"reloadPrologue,omitempty"` // rule list in force (without traffic) before the case's rules
 }
 
 type obsT struct {
@@ -437,7 +438,10 @@ func genRule(r *rng.R, directed bool) ruleT {
 	return ru
 }
 
-func genRules(r *rng.R, directed bool) []ruleT {
+// shareStat: at least two rules with the same strategy and statistic window (the rules that are
+// candidates for one reused statistic in a reload), either the classic family or rules that
+// differ in threshold / minimum amount as well.
+func genRules(r *rng.R, directed, shareStat bool) []ruleT {
 	n := 1
 	switch x := r.Intn(100); {
 	case x < 50:
@@ -447,10 +451,22 @@ func genRules(r *rng.R, directed bool) []ruleT {
 	default:
 		n = 3
 	}
+	if shareStat && n < 2 {
+		n = 2
+	}
 	rules := []ruleT{genRule(r, directed)}
 	family := n > 1 && r.Chance(1, 2)
+	sameWindowOnly := false
+	if shareStat && !family {
+		sameWindowOnly = true
+	}
 	for i := 1; i < n; i++ {
 		ru := genRule(r, directed)
+		if sameWindowOnly {
+			f := rules[0]
+			ru.Strategy, ru.IntervalMs, ru.BucketCount, ru.MaxRtMs = f.Strategy, f.IntervalMs, f.BucketCount, f.MaxRtMs
+			ru.Threshold = genThreshold(r, ru.Strategy)
+		}
 		if family {
 			// same strategy / threshold / window, different retry timeout: the breakers open
 			// together and reach their deadlines at different times (multi-breaker rollback)
@@ -535,7 +551,11 @@ func (h *harness) genRun(id int) (c caseT, obs []obsT, log []evT, marks []int) {
 	c.ID = id
 	c.T0 = 1700000000000 + uint64(id)*100000000 + uint64(r.Range(0, 20000))
 	c.Directed = r.Chance(40, 100)
-	c.Rules = genRules(r, c.Directed)
+	prologue := -1 // kind of the reload the case starts from (-1: none)
+	if id%3 != 0 {
+		prologue = (id / 3) % 8
+	}
+	c.Rules = genRules(r, c.Directed, prologue >= 6)
 	c.ErrPct = int(r.PickI(15, 50, 85))
 	if c.Directed {
 		c.ErrPct = 85
@@ -553,13 +573,28 @@ func (h *harness) genRun(id int) (c caseT, obs []obsT, log []evT, marks []int) {
 	// sibling list in which exactly one field of the first rule differs is in force first, then the
 	// case's rules replace it.  A reload that kept the stale breaker (rule equality ignoring a field)
 	// shows in the decisions that follow.
-	if id%3 != 0 && len(rules) > 0 {
+	// One case in six replaces FEWER or ALL-CHANGED rules of the same strategy and statistic window:
+	// one old rule by two or three new ones none of which equals it (one-to-many), or every rule by
+	// a changed one (many-to-many).  Each rebuilt breaker must get a statistic of its own: breakers
+	// that share a window count every completion once per breaker and wipe each other's counters
+	// on a close, which shows in the per-rule decisions of the reference machine.
+	if prologue >= 0 && len(rules) > 0 {
 		sib := make([]*circuitbreaker.Rule, len(rules))
 		for i, ru := range rules {
 			cp := *ru
 			sib[i] = &cp
 		}
-		switch (id / 3) % 6 {
+		c.Reload = [8]string{"maxRt", "threshold", "retry", "minAmount", "probeNum", "interval", "one-to-many", "many-to-many"}[prologue]
+		switch prologue {
+		case 6:
+			sib = sib[:1]
+			sib[0].RetryTimeoutMs = sib[0].RetryTimeoutMs*3 + 1000
+			sib[0].MinRequestAmount = sib[0].MinRequestAmount*5 + 7
+		case 7:
+			for _, x := range sib {
+				x.RetryTimeoutMs = x.RetryTimeoutMs*3 + 1000
+				x.MinRequestAmount = x.MinRequestAmount*5 + 7
+			}
 		case 0:
 			sib[0].MaxAllowedRtMs = sib[0].MaxAllowedRtMs*4 + 50
 		case 1:
@@ -1019,6 +1054,9 @@ func main() {
 			b, _ := json.Marshal(c)
 			dist.Add(string(b))
 			rep.Count("cases_nontrivial", 1)
+		}
+		if c.Reload != "" {
+			rep.Count("reload_prologue_"+c.Reload, 1)
 		}
 		if c.Directed {
 			rep.Count("cases_phase_directed", 1)
